@@ -57,6 +57,7 @@ type OutMsg struct {
 	Offline     bool // queued while the session had no connection
 	Retained    bool // delivery of a retained message on subscribe
 	WasDeferred bool // was at some point held back by Receive Maximum
+	PubrecAt    int64 // model time at which the client's PUBREC was sent
 }
 
 type Session struct {
